@@ -132,17 +132,18 @@ Proof. vm_compute. split; reflexivity. Qed.
 
 Example C08_nonvacuous_wf :
   Forall plugin_wf [auth_plugin (bs "proxy.py v0") (Some ex_code); base_plugin 1 (bs "P")]
-  /\ Forall step_wf [SFirst (ex_req "/" ex_creds) true; SClient [] (Some (ex_req "/2" ex_creds))].
+  /\ Forall step_wf [SFirst (ex_req "/" ex_creds) true; SClient [] [PComplete (ex_req "/2" ex_creds) []]].
 Proof.
   split.
   - constructor; [apply auth_plugin_wf|]. constructor; [|constructor].
     split; intros seen r r' Hr H; inversion H; now subst.
-  - constructor; [apply wf_headers_of_lines|]. constructor; [apply wf_headers_of_lines|constructor].
+  - constructor; [apply wf_headers_of_lines|]. constructor; [|constructor].
+    constructor; [apply wf_headers_of_lines|constructor].
 Qed.
 
 Example C08_scrubbed_first_and_later :
   upstream_queue (run_conn ex_cf [auth_plugin (bs "proxy.py v0") (Some ex_code); base_plugin 1 (bs "P")] []
-                    [SFirst (ex_req "/" ex_creds) true; SClient [] (Some (ex_req "/2" ex_creds))])
+                    [SFirst (ex_req "/" ex_creds) true; SClient [] [PComplete (ex_req "/2" ex_creds) []]])
   = [QueueUpstream QRequest (bs "GET / HTTP/1.1" ++ CRLF ++ bs "Host: h.example" ++ CRLF ++ bs "Via: 1.1 proxy.py v0" ++ CRLF ++ CRLF);
      QueueUpstream QRequest (bs "GET /2 HTTP/1.1" ++ CRLF ++ bs "Host: h.example" ++ CRLF ++ bs "Via: 1.1 proxy.py v0" ++ CRLF ++ CRLF)].
 Proof. vm_compute. reflexivity. Qed.
